@@ -23,10 +23,51 @@ PROPS = {}
 
 PROPS["C01"] = {
     "level": "model_checking",
-    "explanation": "bounded symbolic execution of the real bit readers against a bit-by-bit reference",
+    "explanation": "bounded symbolic execution of the real bit/byte readers and writers against a bit-by-bit reference contract; stateful readers additionally by one inductive step from an arbitrary state satisfying the representation invariant, and by bounded operation histories through the public API",
+    "wall_quick": 1500, "wall_thorough": 10800,
     "harnesses": [
         {"entry": "pkg/bitio.VerifRead64", "clause": "Read64 = big-endian value of bits [first, first+n)", "asserts": ["Read64 value"],
          "bounds": {"buffer_bytes": 16, "nBits": "0..64", "firstBit": "0..128"}},
+        {"entry": "pkg/bitio.VerifWrite64", "clause": "Write64 writes exactly the n bits of v, nothing else changes", "asserts": ["Write64 bits"],
+         "bounds": {"buffer_bytes": 12, "nBits": "0..64", "firstBit": "0..96", "precondition": "v < 2^nBits (all callers)"}},
+        {"entry": "pkg/bitio.VerifRW64Contract", "clause": "nBits outside 0..64 panics (documented contract)", "bounds": {"nBits": "any int64 outside 0..64"}},
+        {"entry": "pkg/bitio.VerifCopyBufBits", "group": "copybuf", "clause": "copyBufBits copies n bits between arbitrary alignments, optional zero fill of the last byte",
+         "asserts": ["copyBufBits bits"], "bounds": {"bytes": 11, "starts": "0..8", "n": "0..66"}},
+        {"entry": "pkg/bitio.VerifCopyBufBitsWide", "group": "copybuf", "tier": "thorough", "clause": "copyBufBits, wider bounds", "asserts": ["copyBufBits bits"],
+         "bounds": {"bytes": 20, "starts": "0..15", "n": "0..131"}},
+        {"entry": "pkg/bitio.VerifReadFull", "group": "readfull", "clause": "ReadFull/ReadAtFull stitch arbitrary short reads", "bounds": {"source_bits": "11..14", "n": "0..6", "at": "0..7", "short_reads": "any count in [1,possible] per call"}},
+        {"entry": "pkg/bitio.VerifReadFullWide", "group": "readfull", "tier": "thorough", "clause": "ReadFull/ReadAtFull, wider bounds", "bounds": {"source_bits": "0..16", "n": "0..11", "at": "0..16"}},
+        {"entry": "pkg/bitio.VerifIOBitReadSeekerReadAt", "clause": "IOBitReadSeeker.ReadBitsAt over bytes.Reader, second call (stale internal buffer)",
+         "bounds": {"source_bytes": "0..5", "n": "0..20", "off": "0..8*len+9"}},
+        {"entry": "pkg/bitio.VerifIOBitReadSeekerSeekRead", "clause": "IOBitReadSeeker.SeekBits (3 whences) then ReadBits", "bounds": {"source_bytes": "0..4", "off": "-34..34", "n": "0..12"}},
+        {"entry": "pkg/bitio.VerifSectionReaderStep", "clause": "SectionReader: one ReadBitsAt/ReadBits/SeekBits/Clone from an arbitrary valid state (inductive step, covers histories of any length)",
+         "bounds": {"source_bits": "0..32 symbolic", "base/off/limit": "symbolic", "n": "-1..18"}},
+        {"entry": "pkg/bitio.VerifMultiReaderStep", "group": "multi", "clause": "MultiReader over 1..2 sub sources of symbolic length: constructor prefix sums + one step from an arbitrary valid state",
+         "bounds": {"sub_readers": "1..2", "sub_bits": "0..16 symbolic", "n": "0..12"}},
+        {"entry": "pkg/bitio.VerifMultiReaderStep3", "group": "multi", "tier": "thorough", "clause": "MultiReader over 1..3 sub sources", "bounds": {"sub_readers": "1..3"}},
+        {"entry": "pkg/bitio.VerifLimitReaderStep", "clause": "LimitReader: one ReadBits from an arbitrary state", "bounds": {"source_bits": "0..24", "limit": "-2..28"}},
+        {"entry": "pkg/bitio.VerifBufferWriteRead", "clause": "Buffer is a FIFO of bits; zero padded reads; Bits() content", "bounds": {"writes": "0..24 and 0..17 bits", "read": "0..30"}},
+        {"entry": "pkg/bitio.VerifBufferBitsLen", "clause": "Buffer.Bits reports the unread bit count", "bounds": {"write": "0..16", "read": "0..16"}},
+        {"entry": "pkg/bitio.VerifIOReader", "clause": "IOReader: byte view = bits ++ zero pad, once, for any read sizes (including zero-length reads)", "bounds": {"source_bits": "0..24", "read_sizes": "0..3,1..2,4,4"}},
+        {"entry": "pkg/bitio.VerifIOReadSeeker", "group": "iors", "clause": "IOReadSeeker: Read, Seek(any whence), Read returns the bytes at the target", "bounds": {"source_bits": "12..24", "first_read": "0..3 bytes"}},
+        {"entry": "pkg/bitio.VerifIOReadSeekerLong", "group": "iors", "tier": "thorough", "clause": "IOReadSeeker with a source > 64 bits (byte position reaches 8)", "bounds": {"source_bits": "68..80", "first_read": "0..16 bytes"}},
+        {"entry": "pkg/bitio.VerifIOBitWriter", "clause": "IOBitWriter output = written bits ++ zero pad after Flush", "bounds": {"writes": "0..24 and 0..13 bits"}},
+        {"entry": "internal/aheadreadseeker.VerifAheadHistory", "group": "aheadhist", "clause": "aheadreadseeker: every 3-operation history through the public API equals a plain reader", "bounds": {"data_bytes": 5, "minRead": "1,2,4", "ops": 3}},
+        {"entry": "internal/aheadreadseeker.VerifAheadHistory4", "group": "aheadhist", "tier": "thorough", "clause": "aheadreadseeker: 4-operation histories", "bounds": {"ops": 4}},
+        {"entry": "internal/aheadreadseeker.VerifAheadStep", "clause": "aheadreadseeker: one operation from an arbitrary state satisfying the cache invariant keeps the invariant (covers histories of any length)",
+         "bounds": {"data_bytes": 6, "cache": "0..4 bytes"}},
+        {"entry": "internal/progressreadseeker.VerifProgressHistory", "group": "proghist", "clause": "progressreadseeker is a transparent pass-through; progress monotone and <= total", "bounds": {"ops": 2, "precision": "1..4", "totalSize": "1..7 (file grown/shrunk)"}},
+        {"entry": "internal/progressreadseeker.VerifProgressHistory3", "group": "proghist", "tier": "thorough", "clause": "progressreadseeker, 3 operations", "bounds": {"ops": 3}},
+        {"entry": "internal/bitiox.VerifZeroStep", "clause": "ZeroReadAtSeeker: one step from an arbitrary state", "bounds": {"bits": "0..40 symbolic"}},
+        {"entry": "internal/bitiox.VerifLenRange", "clause": "bitiox.Len / bitiox.Range", "bounds": {"source_bits": "0..24 symbolic"}},
+        {"entry": "internal/bitiox.VerifCopyBits", "clause": "bitiox.CopyBits = bits ++ zero pad", "bounds": {"bits": "0..24", "first": "0..7"}},
+        {"entry": "internal/bitiox.VerifComposition", "clause": "Multi(Zero(pad), Section(Section(BitReader))) — the stack binaries and nested decodes build", "bounds": {"pad": "0..7", "first": "0..9", "len": "0..14"}},
     ],
-    "outside": ["ctxreadseeker", "OS files", "buffers > 16 bytes"],
+    "assumptions": [
+        "Write64 precondition: v < 2^nBits (true for all callers)",
+        "SectionReader invariant: 0 <= base <= limit <= source length, base <= cursor (constructor precondition enforced by bitiox.Range)",
+        "reference sources return EOF together with data only when the read was cut short by the end (as every fq reader does)",
+        "negative read offsets are outside the claim (as for io.ReaderAt)",
+    ],
+    "outside": ["ctxreadseeker (goroutine pass-through)", "OS files (bytes.Reader stands in)", "buffers beyond the stated sizes", "cache blocks > 4 bytes", "IOReadSeeker.Seek(SeekEnd) on a source whose length is not a multiple of 8"],
 }
